@@ -160,9 +160,9 @@ static void fill_ins(OPN2_Instrument &in, int note_offset, unsigned drum_key, co
     in.delay_off_ms = 100;
 }
 
-static bool put_ins(Case &c, Rig &r, bool perc, unsigned idx, const OPN2_Instrument &in)
+static bool put_ins(Case &c, Rig &r, bool perc, unsigned idx, const OPN2_Instrument &in, int msb = 0, int lsb = 0)
 {
-    OPN2_BankId id; id.percussive = perc ? 1 : 0; id.msb = 0; id.lsb = 0;
+    OPN2_BankId id; id.percussive = perc ? 1 : 0; id.msb = (OPN2_UInt8)msb; id.lsb = (OPN2_UInt8)lsb;
     OPN2_Bank bk; memset(&bk, 0, sizeof(bk));
     int rc = -1;
     API("opn2_getBank", rc = opn2_getBank(r.dev, &id, OPNMIDI_Bank_Create, &bk));
@@ -181,7 +181,12 @@ static void gen_dtmul(Rng &rng, uint8_t d[4])
 static void cc(Rig &r, int ch, int ctl, int val) { r.begin(); API("opn2_rt_controllerChange", opn2_rt_controllerChange(r.dev, (uint8_t)ch, (uint8_t)ctl, (uint8_t)val)); r.end(); }
 static void set_range(Rig &r, int ch, int msb, int lsb)
 {
-    cc(r, ch, 101, 0); cc(r, ch, 100, 0); cc(r, ch, 6, msb);
+    // a third of the range settings follow the selection of some non-registered parameter on the same channel (no data sent to it):
+    // selecting RPN 0 afterwards makes the data entry address the bend range again; the two select messages come in either order
+    const unsigned v = (unsigned)(ch * 7 + msb * 3 + (lsb + 1));
+    if(v % 3 == 0) { cc(r, ch, 99, (int)(v % 5)); cc(r, ch, 98, 1 + (int)(v % 126)); count("range_settings_after_an_nrpn_selection"); }
+    if(v % 2) { cc(r, ch, 101, 0); cc(r, ch, 100, 0); } else { cc(r, ch, 100, 0); cc(r, ch, 101, 0); }
+    cc(r, ch, 6, msb);
     if(lsb >= 0) cc(r, ch, 38, lsb);
 }
 
@@ -369,11 +374,18 @@ static void sweep_keys(Case &c, int fam, bool perc, int range_msb, int note_off,
     int ch = perc ? 9 : (int)rng.below(9);
     uint8_t dtmul[4]; gen_dtmul(rng, dtmul);
     int program = perc ? 0 : (int)rng.below(128);
+    // melodic instruments may carry a fixed key too (sound effects): a quarter of the melodic sweeps, in bank 0 or in a bank selected with
+    // CC0 / CC32
+    int fixed_key = 0, bmsb = 0, blsb = 0;
     if(!perc)
     {
-        OPN2_Instrument in; fill_ins(in, note_off, 0, dtmul, (unsigned)rng.below(64));
-        if(!put_ins(c, r, false, (unsigned)program, in)) return;
+        if(rng.chance(0.25)) fixed_key = (int)rng.pick((const int[]){1, 35, 60, 84, 100, 127});
+        if(rng.chance(0.5)) { bmsb = (int)rng.pick((const int[]){0, 1, 5, 64}); blsb = (int)rng.pick((const int[]){0, 3}); }
+        OPN2_Instrument in; fill_ins(in, note_off, (unsigned)fixed_key, dtmul, (unsigned)rng.below(64));
+        if(!put_ins(c, r, false, (unsigned)program, in, bmsb, blsb)) return;
+        if(bmsb || blsb) { cc(r, ch, 0, bmsb); cc(r, ch, 32, blsb); }
         r.begin(); API("opn2_rt_patchChange", opn2_rt_patchChange(r.dev, (uint8_t)ch, (uint8_t)program)); r.end();
+        if(fixed_key) count(bmsb || blsb ? "melodic_fixed_key_sweeps_in_a_selected_bank" : "melodic_fixed_key_sweeps_in_bank_0");
     }
     set_range(r, ch, range_msb, -1);
     int phase = (int)rng.below((uint32_t)stride);
@@ -401,7 +413,8 @@ static void sweep_keys(Case &c, int fam, bool perc, int range_msb, int note_off,
             OPN2_Instrument in; fill_ins(in, note_off, (unsigned)drum, dtmul, (unsigned)rng.below(64));
             if(!put_ins(c, r, true, (unsigned)key, in)) return;
         }
-        double base = (double)(perc && drum ? drum : key) + (double)note_off;
+        if(!perc) drum = fixed_key;
+        double base = (double)(drum ? drum : key) + (double)note_off;
         // bend wheel back to the centre before the note (no note sounds: nothing is written)
         r.begin(); API("opn2_rt_pitchBend", opn2_rt_pitchBend(r.dev, (uint8_t)ch, 8192)); r.end();
         Group g;
